@@ -74,6 +74,13 @@ fn frac_set(tier: Tier) -> Vec<String> {
             }
             v.push("0".repeat(len));
         }
+        // fractions that need a million / milliard word (7 to 12 digits), with and without leading zeros
+        for r in [1_000_000u64, 1_000_001, 1_415_926, 2_000_000, 2_500_001, 21_000_000, 100_000_000, 123_456_789, 999_999_999, 1_000_000_000, 2_000_000_001, 123_456_789_012] {
+            let rs = r.to_string();
+            v.push(rs.clone());
+            v.push(format!("0{rs}"));
+            v.push(format!("00{rs}"));
+        }
         v.sort();
         v.dedup();
     }
@@ -151,6 +158,22 @@ pub fn run(tier: Tier) -> i32 {
                     }
                 }
             }
+            // English and German (digit-by-digit dictation): fractions of every length from 13 to 40 digits
+            if matches!(l, L::En | L::De) && (n == 3 || n == 120) {
+                const PI: &str = "1415926535897932384626433832795028841971";
+                for len in 13..=40usize {
+                    for d in [PI[..len].to_string(), "9".repeat(len), format!("{}1", "0".repeat(len - 1))] {
+                        acc.states += 1;
+                        acc.traces += 1;
+                        let s = format!("xyzzy {int_text} {} {} plugh", l.sep(), spell_fraction(l, &d));
+                        let exp = format!("xyzzy {n}{}{d} plugh", l.mark());
+                        let got = guard(|| replace_numbers_in_text(&s, &lang, 0.0)).unwrap_or_else(|p| p);
+                        if got != exp {
+                            ctx.report(acc, Violation { lang: l.code().into(), entry: "replace_text".into(), input: s, threshold: Some(0.0), clause: "rewrite(int sep frac) = int mark frac, every dictated digit kept (long fraction)".into(), expected: exp, observed: got });
+                        }
+                    }
+                }
+            }
             // English: the same fractions dictated with the zero alias 'o'
             if l == L::En && (n < 10 || n == 120) {
                 for (d, spoken) in fracs.iter().zip(fr_spoken.iter()) {
@@ -213,7 +236,7 @@ pub fn run(tier: Tier) -> i32 {
     let cov = json!({
         "exhaustive": true,
         "rule": "every (language, integer part from I, fraction digit string from D) rendered by the reference spellers (digit by digit in en/de, zeros + number otherwise), rewritten at threshold 0 in up to 3 frames; occurrence value checked at threshold 1000; plus negative cases per integer",
-        "bounds": {"integers": ints.len(), "fractions": fracs.len(), "fraction_lengths": format!("all digit strings of length <= {}; plus structured lengths 5-6 (zeros in front of ~125 representative numbers)", 4)},
+        "bounds": {"integers": ints.len(), "fractions": fracs.len(), "fraction_lengths": format!("all digit strings of length <= {}; plus structured lengths 5-6 (zeros in front of ~125 representative numbers) and 36 fractions of 7-14 digits (scale words inside the fraction); en/de: dictated fractions of every length 13..40", 4)},
     });
     ctx.finish(acc, cov, vec![
         "integer parts are a representative set (quick) or all n < 1000 plus the 16^3 group product (thorough), not all n < 10^9".into(),
